@@ -251,7 +251,8 @@ package kernel
 //@ reclimit SumWork, SumShaped, Cap
 //@ -- MintOf: result entry k is a new object carrying the identity of accepted node k
 //@ spec MintOf(ms []*CNodeWork, acc []*CNode, k int) bool = ms[k] != nil && fresh(ms[k]) && allocated(ms[k]) &&
-//@     ms[k].IdForNetwork == acc[k].IdForNetwork
+//@     ms[k].IdForNetwork == acc[k].IdForNetwork &&
+//@     ms[k].Payee.PublicViewKey == acc[k].Payee.PublicViewKey && ms[k].Payee.PublicSpendKey == acc[k].Payee.PublicSpendKey
 
 //@ func (node *Node) distributeKernelMintByWorks
 //@   property C25
@@ -331,3 +332,48 @@ package kernel
 //@   ensures [batch] val(result1) > 0 ==> result0 == BatchOf(node, timestamp) && timestamp > node.Epoch
 //@   ensures [floor] val(result1) > 0 ==> val(result1) >= Size(result0)
 //@   ensures [nonneg] val(result1) >= 0
+
+//@ -- SumOut: the amounts of the first n outputs
+//@ rec SumOut(outs []*common.Output, n int) mathint = n <= 0 ? 0 : SumOut(outs, n - 1) + val(outs[n - 1].Amount)
+//@ recframe SumOut
+//@ reclimit SumOut
+//@ -- MintView: every cached accepted-membership view has 1..254 members (AddOutputWithType rejects a 257th output) whose payee keys are
+//@ -- curve points, and there is a view before the timestamp (the genesis view)
+//@ spec PayeesOK(l []*CNode) bool = len(l) >= 1 && len(l) + 2 <= common.SliceCountLimit &&
+//@     forall j int :: 0 <= j && j < len(l) ==> common.AddrPointsOK(&l[j].Payee)
+//@ spec MintView(node *Node, ts uint64) bool = !NoList(node.acceptedNodeStateSequences, ts) &&
+//@     forall i int :: 0 <= i && i < len(node.acceptedNodeStateSequences) ==> PayeesOK(node.acceptedNodeStateSequences[i].NodesWithoutState)
+
+//@ -- ReadLastConsensusSnapshotWithHack: reads the store (and panics on a storage failure); the snapshot it returns exists.
+//@ assume func (node *Node) ReadLastConsensusSnapshotWithHack
+//@   modifies nothing
+//@   ensures result0 != nil && !fresh(result0)
+
+//@ func (node *Node) buildUniversalMintTransaction
+//@   property C25
+//@   uses MintFloor
+//@   requires MintNode(node) && MintView(node, timestamp)
+//@   requires custodianRequest != nil && common.AddrPointsOK(custodianRequest.Custodian) && !fresh(custodianRequest.Custodian)
+//@   -- [horizon]: during the first 101 years of the schedule every batch is at least 363854 (lemma MintFloor), which keeps every one of
+//@   -- up to 254 kernel outputs, the custodian output and the light output positive; later Integer.Add would reject a zero share (panic)
+//@   requires [horizon] timestamp > node.Epoch ==> BatchOf(node, timestamp) / 365 <= 100
+//@   maypanic   -- only through lastMintDistribution / ReadLastConsensusSnapshotWithHack (storage failure); the two `total > amount` panics are proved unreachable
+//@   modifies nothing
+//@   ensures [input] result != nil ==> len(result.Inputs) == 1 && result.Inputs[0] != nil && result.Inputs[0].Mint != nil &&
+//@       result.Inputs[0].Mint.Batch == BatchOf(node, timestamp) && val(result.Inputs[0].Mint.Amount) >= Size(BatchOf(node, timestamp))
+//@   ensures [count] result != nil ==> len(result.Outputs) >= 3
+//@   ensures [sum] result != nil ==> SumOut(result.Outputs, len(result.Outputs)) == val(result.Inputs[0].Mint.Amount)
+//@   ensures [kernel-half] result != nil ==> 2 * SumOut(result.Outputs, len(result.Outputs) - 2) <= val(result.Inputs[0].Mint.Amount)
+//@   ensures [custodian] result != nil ==> val(result.Outputs[len(result.Outputs) - 2].Amount) == val(result.Inputs[0].Mint.Amount) / 10 * 4
+//@   ensures [positive] result != nil ==> forall k int :: 0 <= k && k < len(result.Outputs) ==> result.Outputs[k] != nil && val(result.Outputs[k].Amount) >= 1
+//@   hint after (*kernel.Node).distributeKernelMintByWorks PayeesOK(accepted)
+//@   hint after (*common.Transaction).AddScriptOutput SumOut(tx.Outputs, len(tx.Outputs)) ==
+//@       SumOut(tx.Outputs, len(tx.Outputs) - 1) + val(tx.Outputs[len(tx.Outputs) - 1].Amount)
+//@   loop 0 invariant [tx] tx != nil && fresh(tx) && (cap(tx.Outputs) == 0 || fresh(tx.Outputs)) && len(tx.Outputs) == rangeindex + 1 && tx.Version == common.TxVersionHashSignature &&
+//@       len(tx.Inputs) == 1 && tx.Inputs[0] != nil && tx.Inputs[0].Mint != nil && val(tx.Inputs[0].Mint.Amount) == val(amount) && tx.Inputs[0].Mint.Batch == batch
+//@   loop 0 invariant [outs] forall k int :: 0 <= k && k <= rangeindex ==>
+//@       tx.Outputs[k] != nil && allocated(tx.Outputs[k]) && fresh(tx.Outputs[k]) && val(tx.Outputs[k].Amount) >= 1
+//@   loop 0 invariant [mints] len(mints) == len(accepted) && (forall k int :: 0 <= k && k < len(mints) ==> MintOf(mints, accepted, k) && val(mints[k].Work) >= 1 && common.AddrPointsOK(&mints[k].Payee))
+//@   loop 0 invariant [mints-sum] SumWork(mints, len(mints)) <= val(kernel)
+//@   loop 0 invariant [unfold] SumWork(mints, rangeindex + 1) == SumWork(mints, rangeindex) + (rangeindex >= 0 ? val(mints[rangeindex].Work) : 0)
+//@   loop 0 invariant [total] val(total) >= 0 && val(total) == SumWork(mints, rangeindex + 1) && val(total) == SumOut(tx.Outputs, rangeindex + 1)
